@@ -17,7 +17,8 @@ RULE = ("(a) generated interfaces x 1 canonical + k random renderings of each (p
         "subset incl. a dangling edge, every key order; 4 keys exhaustively and 5..7 keys sampled in the thorough "
         "tier); non-trivial = every rendering pair x operation / type, every graph with an edge; distinct = distinct "
         "of those"
-        " ; plus: types looked up through the document's own prefix (ns0/ns1/ns2 bound to other namespaces included), named versus anonymous restricted simple types")
+        " ; plus: types looked up through the document's own prefix (ns0/ns1/ns2 bound to other namespaces included), named versus anonymous restricted simple types"
+        ' ; a hand-written three-namespace interface in all 6 block orders x own namespace by prefix / default only; generated ns<N> prefixes under all block and type orders x sortNamespaces')
 ASSUMPTIONS = ["anonymous inline types are used only where the abstract interface never needs the type's name "
                "(not in rpc/encoded interfaces, not for derived or base types, not for operation parameters)",
                "decoded objects are compared without their class names when a rendering inlines types "
@@ -425,12 +426,144 @@ def simple_type_renderings(ctx):
                  "simple-type-renderings"}, repr(results["anonymous"]), repr(results["named"]))
 
 
+_HW_WSDL = """<?xml version="1.0" encoding="UTF-8"?>
+<wsdl:definitions targetNamespace="urn:w" xmlns:w="urn:w" xmlns:wsdl="http://schemas.xmlsoap.org/wsdl/"
+    xmlns:soap="http://schemas.xmlsoap.org/wsdl/soap/"%(rootdecl)s>
+  <wsdl:types>%(schemas)s</wsdl:types>
+  <wsdl:message name="In" xmlns:q="urn:a"><wsdl:part name="parameters" element="q:Op"/></wsdl:message>
+  <wsdl:message name="Out" xmlns:q="urn:a"><wsdl:part name="parameters" element="q:OpResponse"/></wsdl:message>
+  <wsdl:portType name="PT">
+    <wsdl:operation name="Op"><wsdl:input message="w:In"/><wsdl:output message="w:Out"/></wsdl:operation>
+  </wsdl:portType>
+  <wsdl:binding name="B" type="w:PT">
+    <soap:binding style="document" transport="http://schemas.xmlsoap.org/soap/http"/>
+    <wsdl:operation name="Op"><soap:operation soapAction="op"/>
+      <wsdl:input><soap:body use="literal"/></wsdl:input><wsdl:output><soap:body use="literal"/></wsdl:output>
+    </wsdl:operation>
+  </wsdl:binding>
+  <wsdl:service name="S"><wsdl:port name="P" binding="w:B"><soap:address location="http://localhost/x"/></wsdl:port></wsdl:service>
+</wsdl:definitions>
+"""
+
+
+def _hw_blocks(style):
+    """Three namespaces chained a -> b -> c: a's Op refers to b's global element `item` (anonymous type with
+    unqualified locals) and to b's `x`, whose named type lives in c.  style: how each block names its own namespace -
+    'prefixed' (xmlns:a=...), 'default' (xmlns=... only)."""
+    XS = "http://www.w3.org/2001/XMLSchema"
+
+    def own(p, uri):
+        return (' xmlns:%s="%s"' % (p, uri), p + ":") if style == "prefixed" else (' xmlns="%s"' % uri, "")
+    da, qa = own("a", "urn:a")
+    db, qb = own("b", "urn:b")
+    dc, qc = own("c", "urn:c")
+    A = ('<xs:schema targetNamespace="urn:a" xmlns:xs="%s"%s xmlns:pb="urn:b"><xs:import namespace="urn:b"/>'
+         '<xs:element name="Op"><xs:complexType><xs:sequence><xs:element ref="pb:item"/><xs:element ref="pb:x"/>'
+         '<xs:element name="note" type="xs:string"/><xs:element ref="%sown"/></xs:sequence></xs:complexType></xs:element>'
+         '<xs:element name="own"><xs:complexType><xs:sequence><xs:element name="k" type="xs:string"/></xs:sequence>'
+         '</xs:complexType></xs:element>'
+         '<xs:element name="OpResponse"><xs:complexType><xs:sequence><xs:element ref="pb:item" minOccurs="0"/>'
+         '</xs:sequence></xs:complexType></xs:element></xs:schema>' % (XS, da, qa))
+    B = ('<xs:schema targetNamespace="urn:b" xmlns:xs="%s"%s xmlns:pc="urn:c"><xs:import namespace="urn:c"/>'
+         '<xs:element name="item"><xs:complexType><xs:sequence><xs:element name="code" type="xs:string"/>'
+         '<xs:element name="qty" type="xs:int"/></xs:sequence></xs:complexType></xs:element>'
+         '<xs:element name="x" type="pc:T"/></xs:schema>' % (XS, db))
+    C = ('<xs:schema targetNamespace="urn:c" xmlns:xs="%s"%s elementFormDefault="qualified"><xs:complexType name="T">'
+         '<xs:sequence><xs:element name="v" type="xs:int"/></xs:sequence></xs:complexType></xs:schema>' % (XS, dc))
+    return {"A": A, "B": B, "C": C}
+
+
+def handwritten_renderings(ctx):
+    """One small interface over three chained namespaces written in every order of its schema blocks, each block
+    naming its own namespace by a prefix or only as the default namespace: the same requests, as the XSD rules
+    prescribe (a referenced global element is in its namespace, its unqualified locals in none), and the same
+    decoding of one reply."""
+    want = [["urn:a", "Op", None, [
+        ["urn:b", "item", None, [[None, "code", "A1", []], [None, "qty", "3", []]]],
+        ["urn:b", "x", None, [["urn:c", "v", "7", []]]],
+        [None, "note", "hello", []],
+        ["urn:a", "own", None, [[None, "k", "kk", []]]]]]]
+
+    def canon(n):
+        return [n["name"][0], n["name"][1], (n.get("text") or None) if not n["children"] else None,
+                [canon(c) for c in n["children"]]]
+    reply = ('<e:Envelope xmlns:e="%s"><e:Body><r:OpResponse xmlns:r="urn:a"><z:item xmlns:z="urn:b"><code>C</code>'
+             '<qty>5</qty></z:item></r:OpResponse></e:Body></e:Envelope>' % xmlread.ENV11).encode()
+    for style in ("prefixed", "default"):
+        blocks = _hw_blocks(style)
+        for order in itertools.permutations("ABC"):
+            meta = {"stream": "handwritten-renderings", "own_namespace": style, "block_order": "".join(order)}
+            ctx.case(common.canon(meta), True)
+            w = (_HW_WSDL % {"rootdecl": "", "schemas": "".join(blocks[k] for k in order)}).encode()
+            try:
+                c = wsdlkit.client(w, nosend=True)
+                env = wsdlkit.envelope_bytes(c.service.Op({"code": "A1", "qty": 3}, {"v": 7}, "hello", {"k": "kk"}))
+                body = xmlread.find1(xmlread.parse(env), "Body")
+                got = [canon(k) for k in body["children"]]
+            except Exception as e:
+                ctx.fail("a rendering of the interface does not load or cannot build its request", meta,
+                         "%s: %s" % (type(e).__name__, e), want, kind="load")
+                continue
+            if got != want:
+                ctx.fail("request differs from what the abstract interface prescribes", meta, got, want, kind="request")
+            try:
+                r = wsdlkit.client(w).service.Op({"code": "A1", "qty": 3}, {"v": 7}, "hello", {"k": "kk"},
+                                                  __inject={"reply": reply})
+                dec = [str(getattr(r, "code", None)), getattr(r, "qty", None)]
+            except Exception as e:
+                dec = "%s: %s" % (type(e).__name__, e)
+            if dec != ["C", 5]:
+                ctx.fail("reply decoded differently from the abstract value", meta, repr(dec), repr(["C", 5]), kind="reply")
+
+
+def prefix_numbering(ctx):
+    """The generated prefixes (ns0, ns1, ...: what str(client) shows and factory.create('nsN:Type') understands) do not
+    depend on the order in which a WSDL declares its schema blocks and types - with namespace sorting on or off."""
+    XS = "http://www.w3.org/2001/XMLSchema"
+    names = {"urn:p1": ["Zulu", "Mike"], "urn:p2": ["Alpha", "Yankee"], "urn:p3": ["Bravo"]}
+
+    def block(uri, order):
+        return ('<xs:schema targetNamespace="%s" xmlns:xs="%s">%s</xs:schema>' % (uri, XS, "".join(
+            '<xs:complexType name="%s"><xs:sequence><xs:element name="a" type="xs:string"/></xs:sequence>'
+            '</xs:complexType>' % n for n in order)))
+    main = ('<xs:schema targetNamespace="urn:a" xmlns:xs="%s"><xs:element name="Op"><xs:complexType><xs:sequence>'
+            '<xs:element name="s" type="xs:string"/></xs:sequence></xs:complexType></xs:element>'
+            '<xs:element name="OpResponse"><xs:complexType><xs:sequence/></xs:complexType></xs:element></xs:schema>' % XS)
+    for sortns in (True, False):
+        ref = None
+        for perm in itertools.permutations(sorted(names)):
+            for rev in (False, True):
+                blocks = [main] + [block(u, list(reversed(names[u])) if rev else names[u]) for u in perm]
+                meta = {"stream": "prefix-numbering", "sortNamespaces": sortns, "block_order": list(perm), "reversed": rev}
+                ctx.case(common.canon(meta), True)
+                w = (_HW_WSDL % {"rootdecl": "", "schemas": "".join(blocks)}).encode()
+                try:
+                    c = wsdlkit.client(w, nosend=True, sortNamespaces=sortns)
+                    got = sorted([p, u] for p, u in c.sd[0].prefixes)
+                    made = {}
+                    for p, u in c.sd[0].prefixes:
+                        for n in names.get(u, []):
+                            made[n] = type(c.factory.create("%s:%s" % (p, n))).__name__
+                except Exception as e:
+                    got, made = "%s: %s" % (type(e).__name__, e), None
+                if ref is None:
+                    ref = (got, made)
+                    if made != {n: n for ns_ in names.values() for n in ns_}:
+                        ctx.fail("a generated prefix does not name its namespace's types", meta, repr(made), "every type",
+                                 kind="factory")
+                elif (got, made) != ref:
+                    ctx.fail("the generated namespace prefixes depend on the order of declarations", meta,
+                             repr((got, made)), repr(ref), kind="sd")
+
+
 def run(ctx):
     depsort_part(ctx)
     qualify_part(ctx)
     consolidate_part(ctx)
     renderings_part(ctx)
     simple_type_renderings(ctx)
+    handwritten_renderings(ctx)
+    prefix_numbering(ctx)
     ctx.sample({"graph": [[1, [2, 3]], [2, [1]], [3, []]], "note": "D14 witness graph"})
 
 
